@@ -14,7 +14,8 @@ TRUSTED = ["the go/ast write-site extractor: syntactic freshness (a target roote
            "maps.Clone, append, named engine constructors) and the justified allow-list of the remaining 16 sites",
            "aliasing through values returned by helpers is covered only by the deep comparison"]
 RULE = ("every generator of C01-C08, the probes of C12 (sub-queries, EXISTS, CTEs, `<-`), joins, ORDER BY, aggregates, and the fault "
-        "streams of C19 at EVERY failure point k, with and without Wrapped: a cycle-safe structural snapshot of the input taken by the "
+        "joins with no alias on either side (the rows are then the caller's own maps), documents using the keys `<-` `*` `root` "
+        "themselves, and the fault streams of C19 at EVERY failure point k, with and without Wrapped: a cycle-safe structural snapshot of the input taken by the "
         "runner before New+Exec is compared with the input afterwards; non-trivial = the query evaluates a marker site, a CTE, EXISTS "
         "or ORDER BY")
 
@@ -51,6 +52,37 @@ def explore(chk, rnd, tier):
             "SELECT * FROM `root.t` x JOIN `root.t` y ON x.a = y.a",
         ])
         reqs.append({"op": "query", "doc": enc_val({"t": rows, "meta": [{"x": 9}]}), "sql": sql, "wrapped": True})
+        tags.append(sql)
+    # shapes in which the engine works on the caller's own maps rather than on its private wrappers: joins without
+    # an alias on either side (hash and nested-loop paths, unmatched outer rows), and documents that themselves
+    # use the reserved-looking keys `<-`, `*`, `root`
+    for _ in range(n // 8):
+        lrows = [{"id": rnd.choice([1, 2, 3, 4]), "nm": rnd.choice(["a", "b"])} for _ in range(rnd.randint(0, 4))]
+        rrows = [{"uid": rnd.choice([1, 2, 5]), "amt": rnd.choice([10, 20])} for _ in range(rnd.randint(0, 4))]
+        kind = rnd.choice(["LEFT JOIN", "RIGHT JOIN", "JOIN", "LEFT HASH_JOIN" if False else "LEFT JOIN", "PARALLEL LEFT JOIN", "PARALLEL RIGHT JOIN"])
+        on = rnd.choice(["id = o.uid", "id = uid", "id < o.uid", "id = o.uid AND nm = 'a'", "l.id = uid"])
+        lt = "users l" if on.startswith("l.") else "users"
+        rt = "orders o" if "o.uid" in on else "orders"
+        sql = "SELECT * FROM %s %s %s ON %s" % (lt, kind, rt, on)
+        reqs.append({"op": "query", "doc": enc_val({"users": lrows, "orders": rrows}), "sql": sql})
+        tags.append(sql)
+    for _ in range(n // 8):
+        def odd_row():
+            r = {"a": rnd.choice([1, 2, 3]), "items": [{"x": rnd.choice([1, 2])} for _ in range(rnd.randint(0, 2))]}
+            for k in rnd.sample(["<-", "*", "root", "dual"], rnd.randint(1, 2)):
+                r[k] = rnd.choice([7, "kept", {"deep": 1}, [1, 2]])
+            return r
+        rows = [odd_row() for _ in range(rnd.randint(1, 4))]
+        sql = rnd.choice([
+            "SELECT a FROM t WHERE a >= 2",
+            "SELECT a, (SELECT x FROM items) AS s FROM t",
+            "SELECT a FROM t WHERE EXISTS (SELECT * FROM items WHERE x = a)",
+            "SELECT a FROM t WHERE a IN (SELECT x FROM items)",
+            "SELECT * FROM t ORDER BY a DESC",
+            "SELECT a, COUNT(*) AS c FROM t GROUP BY a",
+            "SELECT * FROM t x JOIN t y ON x.a = y.a",
+        ])
+        reqs.append({"op": "query", "doc": enc_val({"t": rows, "<-": "top", "*": [1]}), "sql": sql, "wrapped": rnd.random() < 0.3 and "FROM t" not in sql})
         tags.append(sql)
     # every failure point of fault-injected queries
     fcases = []
